@@ -32,8 +32,10 @@ def check_file(names, stem, style):
         os.mkdir(os.path.join(tmp, "inputs"))
         os.mkdir(os.path.join(tmp, "outputs"))
         path = os.path.join("inputs", stem + ".py")
-        with open(os.path.join(tmp, path), "w") as f:
+        with open(os.path.join(tmp, path), "w", encoding="utf-8") as f:
             f.write(text)
+        # the same file addressed in three ways (dots in the directory part must not matter)
+        how = {"repr": path, "generator": "./" + path, "expressions": os.path.join("..", os.path.basename(tmp), path)}[style]
         os.chdir(tmp)
         # 1. the reader returns the games the file textually denotes
         try:
@@ -47,16 +49,16 @@ def check_file(names, stem, style):
         if st != "ok":
             return [("C16/batch-crash", repr(expect), None, "run_games failed on the file's dictionary")]
         # 3. the real command line: python conditionalrewards.py -f inputs/<stem>.py -s
-        sys.argv = ["conditionalrewards.py", "-f", path, "-s"]
+        sys.argv = ["conditionalrewards.py", "-f", how, "-s"]
         st, val = budget.run_budgeted(CR.main, cpu_s=60.0, max_lines=100_000_000)
         if st != "ok":
-            return [("C16/main-crash", repr(val), None, "main() -f %s -s failed: %r" % (path, val))]
+            return [("C16/main-crash", repr(val), None, "main() -f %s -s failed: %r" % (how, val))]
         files = sorted(os.listdir("outputs"))
         if files != [stem + ".txt"]:
-            return [("C16/wrong-report-name", files, [stem + ".txt"], "outputs/ contains %r after running on %s" % (files, path))]
+            return [("C16/wrong-report-name", files, [stem + ".txt"], "outputs/ contains %r after running on -f %s" % (files, how))]
         if sorted(os.listdir("inputs")) != [stem + ".py"]:
             return [("C16/inputs-touched", sorted(os.listdir("inputs")), [stem + ".py"], "inputs/ was modified")]
-        body = open(os.path.join("outputs", stem + ".txt")).read()
+        body = open(os.path.join("outputs", stem + ".txt"), encoding="utf-8").read()
         try:
             blocks = B.parse_report(body)
         except ValueError as e:
